@@ -39,5 +39,11 @@ Definition run_c13 (x : sx) : sx :=
   (* 9: specification: first occurrences in order *)
   | L [A 9; l] =>
     match list_of_sx str_of_sx l with Some l' => sx_list sx_str (stable_unique l') | None => sx_bad end
+  (* 10: json.decoder.scanstring(text, 1): decoded literal and the remaining text *)
+  | L [A 10; s] =>
+    match str_of_sx s with
+    | Some s' => sx_opt (fun p => L [sx_str (fst p); sx_str (snd p)]) (read_string s')
+    | None => sx_bad
+    end
   | _ => sx_bad
   end.
